@@ -445,8 +445,20 @@ def rule_view_shapes(prog, fixture=False):
                         break
                 if sdef is not None and sdef.get("k") == "BinaryOperator" and sdef.get("op") == "*" and lp_ is not None and "init" in lp_["parts"]:
                     ivs_ = [x for x in walk(lp_["c"][lp_["parts"]["init"]]) if x.get("k") == "VarDecl"]
-                    a_, b_ = strip_all(sdef["c"][0]), strip_all(sdef["c"][1])
-                    for x_, y_ in ((a_, b_), (b_, a_)):
+                    def through_locals(e_, depth_=0):
+                        e_ = strip_all(e_)
+                        while e_ is not None and e_.get("k") in ("CStyleCastExpr", "CXXStaticCastExpr", "CXXFunctionalCastExpr") and e_.get("c"):
+                            e_ = strip_all(e_["c"][0])
+                        if e_ is not None and e_.get("k") == "DeclRefExpr" and e_.get("dk") == "Var" and depth_ < 3 and \
+                                ivs_ and e_.get("d") != ivs_[0]["d"] and \
+                                not any(d__ == e_["d"] for y__ in fn.walk() for d__, _ in flow.written_decls(y__)
+                                        if y__.get("k") not in ("VarDecl", "DeclStmt")):
+                            for v__ in fn.walk():
+                                if v__.get("k") == "VarDecl" and v__.get("d") == e_["d"] and v__.get("c"):
+                                    return through_locals(v__["c"][0], depth_ + 1)
+                        return e_
+                    ra_, rb_ = strip_all(sdef["c"][0]), strip_all(sdef["c"][1])
+                    for x_, y_ in ((through_locals(ra_), rb_), (through_locals(rb_), ra_)):
                         if ivs_ and x_ is not None and x_.get("k") == "DeclRefExpr" and x_.get("d") == ivs_[0]["d"] and \
                                 folded(ivs_[0]["c"][0]) == 0 and same_expr(y_, take):
                             adv = True
